@@ -163,6 +163,163 @@ def payloads(ctx):
             for (c, ov) in jobs(ctx) for s in seeds]
 
 
+# ------------------------------------------------------------------------------------------------------------------
+# handler level: CellBoundaryEventHandler against Model/CellBoundary.v (bit for bit) and a direct oracle
+def cb_cases(ctx, n):
+    import c07
+    f2b, b2f = c07._f2b, c07._b2f
+    rng = ctx.rng
+    cases = []
+    for _ in range(n):
+        dim = rng.choice([2, 3, 3])
+        cubic = rng.random() < 0.4
+        Ls = [rng.choice([1.0, 2.5, 7.3, 0.8])] * dim if cubic else [rng.choice([1.0, 1.5, 2.5, 0.8, 7.3, 3.0]) for _ in range(dim)]
+        ns = [rng.choice([3, 4, 5, 6, 7]) for _ in range(dim)]
+        speed = rng.choice([1.0, 1.0, -1.0, 2.0, -0.37, rng.uniform(0.1, 3.0)])
+        if rng.random() < 0.75:
+            vel = [0.0] * dim
+            vel[rng.randrange(dim)] = speed
+        else:
+            vel = [rng.choice([0.0, rng.uniform(-2, 2)]) for _ in range(dim)]
+            if all(x == 0.0 for x in vel):
+                vel[0] = speed
+        q = float(rng.choice([0, 3, 1000, 2 ** 35]))
+        ts = [f2b(q), f2b(rng.choice([0.0, rng.random(), rng.random()]))]
+
+        def coord(d):
+            u = rng.random()
+            if u < 0.15:
+                return rng.randrange(ns[d]) * (Ls[d] / ns[d])          # on (or next to) a cell boundary
+            if u < 0.2:
+                return 0.0
+            if u < 0.25:
+                return Ls[d] * (1 - 2.0 ** -53)
+            return rng.uniform(0, Ls[d])
+
+        def unit(ident, v, t, w=1.0, pos=None):
+            return {"id": ident, "pos": [f2b(coord(d)) for d in range(dim)] if pos is None else pos,
+                    "vel": None if v is None else [f2b(x) for x in v], "ts": t, "w": f2b(w), "children": []}
+
+        kind = rng.choice(["single", "root", "leaf"])
+        if kind == "single":
+            br, levels, cl, rel = unit([2], vel, ts), 1, 1, 0
+        elif kind == "root":
+            br = unit([2], vel, ts)
+            br["children"] = [unit([2, a], vel, ts, 0.5) for a in range(2)]
+            levels, cl, rel = 2, 1, 0
+        else:
+            br = unit([2], [x * 0.5 for x in vel], ts)
+            br["children"] = [unit([2, 1], vel, ts, 0.5)]
+            levels, cl, rel = 2, 2, 1
+        malformed = None
+        if rng.random() < 0.03:
+            tgt = br if rel == 0 else br["children"][0]
+            tgt["vel"] = [f2b(0.0)] * dim
+            malformed = "no motion"
+        cases.append({"L": [f2b(x) for x in Ls], "cubic_class": cubic and rng.random() < 0.7, "ns": ns, "levels": levels,
+                      "cell_level": cl, "rel": rel, "branch": br, "fresh": rng.random() < 0.2,
+                      "kind": kind + ("/cubic" if cubic else "/cuboid"), "malformed": malformed})
+    return cases
+
+
+def cb_oracle(c, o):
+    """C11 in its own terms: the event is the EARLIEST crossing of a cell wall along the velocity, and afterwards the
+    unit lies in the neighbouring cell in that direction"""
+    import c07
+    from fractions import Fraction as Fr
+    fr = lambda b: Fr(c07._b2f(b))
+    if o.get("T") is None or o.get("out") is None:
+        return None
+    flat = c07._flat_eb(c["branch"], None, [])
+    u = flat[c["rel"]][0]
+    best = None
+    for d, vb in enumerate(u["vel"]):
+        v = fr(vb)
+        if v == 0:
+            continue
+        L = fr(c["L"][d])
+        dist = (fr(o["bmins"][d]) - fr(u["pos"][d])) % L if v > 0 else (fr(u["pos"][d]) - fr(o["bmaxs"][d])) % L
+        t = dist / abs(v)
+        if best is None or t < best[0]:
+            best = (t, d, v > 0)
+    dt = fr(o["T"][0]) + fr(o["T"][1]) - fr(u["ts"][0]) - fr(u["ts"][1])
+    if dt < 0:
+        return "cell-boundary event before the time stamp of the unit"
+    if abs(dt - best[0]) > (1 + best[0] + abs(fr(u["ts"][0]))) / 2 ** 44:
+        return "cell-boundary event after %.17g, the earliest wall is reached after %.17g" % (float(dt), float(best[0]))
+    d = o["dir"]
+    # two walls reached within rounding of each other (a unit sitting on a cell corner and moving diagonally): the
+    # time slice carries the unit through the second wall as well and it ends in the diagonally neighbouring cell - the
+    # handler-level analogue of exactly simultaneous events (F12 family), which no history with the shipped
+    # axis-parallel motion reaches; the neighbouring-cell clause is stated for a unique earliest wall only
+    for d2, vb in enumerate(u["vel"]):
+        v2 = fr(vb)
+        if d2 == d or v2 == 0:
+            continue
+        L2 = fr(c["L"][d2])
+        dist2 = (fr(o["bmins"][d2]) - fr(u["pos"][d2])) % L2 if v2 > 0 else (fr(u["pos"][d2]) - fr(o["bmaxs"][d2])) % L2
+        if dist2 - abs(v2) * best[0] <= L2 / 2 ** 40:
+            return "skip"
+    v = fr(u["vel"][d])
+    exp = list(o["cell"])
+    exp[d] = (exp[d] + (1 if v > 0 else -1)) % c["ns"][d]
+    if o["cell_after"] != exp:
+        return "after the cell-boundary event the unit is in cell %r, the neighbouring cell is %r" % (o["cell_after"], exp)
+    return None
+
+
+def cb_handler_level(ctx, cases=None):
+    import c07
+    cases = cases if cases is not None else cb_cases(ctx, ctx.n(1500, 12000))
+    chunks = [cases[i:i + 250] for i in range(0, len(cases), 250)]
+    outs = []
+    for o in C.run_driver_parallel(ctx, "c11_cb", [{"cases": ch} for ch in chunks]):
+        outs += o["out"]
+    fails, terms, kinds, raised, used, near_ties = [], [], {}, 0, [], 0
+    for c, o in zip(cases, outs):
+        if "exc" in o:
+            fails.append((c, "driver could not set the case up: %s %s" % (o["exc"], o["msg"])))
+            continue
+        kinds[c["kind"]] = kinds.get(c["kind"], 0) + 1
+        if o["T"] is None or o.get("out") is None:
+            raised += 1
+            if c["malformed"] is None:
+                fails.append((c, "the handler raised on a well-formed in-state: %s" % (o.get("exc_T") or o.get("exc_out"))))
+                continue
+        m = cb_oracle(c, o)
+        if m == "skip":
+            near_ties += 1
+        elif m:
+            fails.append((c, m))
+        zl = lambda l: C.coq_list(["%d%%Z" % x for x in l])
+        st = C.coq_list([c07._eb(u, p) for u, p in c07._flat_eb(c["branch"], None, [])])
+        ro = "None" if o.get("out") is None else "(Some %s)" % C.coq_list([c07._eb(u, None, c07._f2b(1.0)) for u in o["out"]])
+        terms.append("mkCB %s %s %d%%nat %s %s %s %d%%Z %d%%nat %s" % (
+            zl(c["L"]), st, c["rel"], zl(o["bmins"]), zl(o["bmaxs"]),
+            "None" if o["T"] is None else "(Some (%d%%Z, %d%%Z))" % tuple(o["T"]), o.get("bound", 0), o.get("dir", 0), ro))
+        used.append(c)
+    bad, err, neval = [], "", 0
+    if terms:
+        neval, bad, nf, nok, err = C.eval_cases(
+            ctx, "c11_cb", "Require Import JF.Base.F64 JF.Model.EndOfChainCases JF.Model.CellBoundary "
+            "JF.Model.CellBoundaryCases.\nFrom Coq Require Import ZArith.", terms, "check_cbcase", "cbcase", per_file=150)
+    if fails:
+        c, m = fails[0]
+        C.violation(ctx, "cb-handler", {"kind": "c11-cb", "case": c, "message": m, "n_failing": len(fails)},
+                    "C11 fails on the implementation (cell-boundary handler): " + m)
+    elif bad or err or neval != len(terms):
+        C.violation(ctx, "cb-correspondence",
+                    {"kind": "c11-cb", "case": used[bad[0]] if bad else None,
+                     "message": "the real cell-boundary handler differs from Model/CellBoundary.v in %d cases (%d of %d "
+                                "evaluated); the correspondence JF.Model.CellBoundaryCases.check_cbcase no longer "
+                                "checks. %s" % (len(bad), neval, len(terms), err[-300:])},
+                    "cell-boundary model and handler disagree", nofail=True)
+    ctx.notes.append("cell-boundary handler level: %d constructed cases %r; handler raised (malformed stream): %d; "
+                     "%d with two walls reached within rounding (neighbouring-cell clause not applied); "
+                     "%d oracle failures, %d cases evaluated in Coq, %d bit-level mismatches with Model/CellBoundary.v"
+                     % (len(cases), kinds, raised, near_ties, len(fails), neval, len(bad)))
+
+
 TIE_JOB = ("config_files/2018_JCP_149_064113/coulomb_atoms/cell_bounded.ini",
            {"CuboidPeriodicCells": {"cells_per_side": "4"},
             "SingleIndependentActivePeriodicDirectionEndOfChainEventHandler": {"chain_time": "0.11563575588759878"}})
@@ -188,10 +345,11 @@ def tie_probe(ctx):
     ctx.notes.append("exact-tie probe (F12): %s" % ("reproduced" if (err or fails) else "clean"))
 
 
-def run(ctx, replay_jobs=None):
+def run(ctx, replay_jobs=None, cb_override=None):
     C.build_scratch(ctx, exts=("heap", "mic", "ipc"))
     if replay_jobs is None:
         tie_probe(ctx)
+        cb_handler_level(ctx, cases=cb_override)
     nlegs = ctx.n(150, 400)
     hist.run_history_check(
         ctx, "C11", ("C11",), encoders(), TRUSTED, [a % nlegs if "%d" in a else a for a in ASSUME],
@@ -203,4 +361,9 @@ def run(ctx, replay_jobs=None):
 
 
 def replay(ctx, path):
+    import json
+    data = json.load(open(path))
+    if data.get("kind") == "c11-cb":
+        run(ctx, cb_override=[data["case"]] if data.get("case") else None)
+        return
     run(ctx, replay_jobs=hist.replay_payloads(path))
